@@ -1,13 +1,386 @@
 package main
 
+// Replay of a refuted obligation on the real code: the solver's model is turned
+// into concrete Go arguments, an in-package test is injected with
+// `go test -overlay`, the real function runs, and
+//   - for a no-panic obligation the run must panic,
+//   - for a postcondition the real results must equal the results the model
+//     predicts (on which the solver evaluated the clause to false).
+// Supported argument shapes: integers, booleans, slices of integers, struct
+// values and pointers to structs whose fields are integers/booleans/strings(empty).
+
+import (
+	"bytes"
+	"context"
+	"encoding/json"
+	"fmt"
+	"go/types"
+	"os"
+	"os/exec"
+	"path/filepath"
+	"regexp"
+	"strconv"
+	"strings"
+	"time"
+)
+
 type ReplayResult struct {
 	Confirmed bool              `json:"confirmed"`
 	Note      string            `json:"note"`
 	Inputs    map[string]string `json:"inputs,omitempty"`
+	Expected  map[string]string `json:"model_predicted_results,omitempty"`
 	TestFile  string            `json:"test_file,omitempty"`
 	Output    string            `json:"output,omitempty"`
 }
 
+// getValues asks the solver for the values of the given terms under extra pinned equalities.
+func getValues(e *Enc, o *Oblig, terms []string, pins []string) (map[string]string, error) {
+	if len(terms) == 0 {
+		return map[string]string{}, nil
+	}
+	q := e.smtFor(o, true, nil)
+	q = strings.Replace(q, "(check-sat)\n", strings.Join(pins, "\n")+"\n(check-sat)\n(get-value ("+strings.Join(terms, " ")+"))\n", 1)
+	f, err := os.CreateTemp("", "gocv-replay-*.smt2")
+	if err != nil {
+		return nil, err
+	}
+	defer os.Remove(f.Name())
+	f.WriteString(q)
+	f.Close()
+	ctx, cancel := context.WithTimeout(context.Background(), 30*time.Second)
+	defer cancel()
+	for _, solver := range []string{"z3-new", "z3"} {
+		out, _ := exec.CommandContext(ctx, solver, "-T:20", f.Name()).CombinedOutput()
+		s := string(out)
+		if !strings.HasPrefix(strings.TrimSpace(s), "sat") {
+			continue
+		}
+		i := strings.Index(s, "(")
+		if i < 0 {
+			continue
+		}
+		vals := parseGetValue(s[i:], terms)
+		if len(vals) == len(terms) {
+			return vals, nil
+		}
+	}
+	return nil, fmt.Errorf("no model values")
+}
+
+// parseGetValue parses ((t1 v1) (t2 v2) ...) in order.
+func parseGetValue(s string, terms []string) map[string]string {
+	res := map[string]string{}
+	// tokenise into s-expressions at depth 1
+	depth := 0
+	start := -1
+	var items []string
+	for i, c := range s {
+		switch c {
+		case '(':
+			depth++
+			if depth == 2 {
+				start = i
+			}
+		case ')':
+			if depth == 2 && start >= 0 {
+				items = append(items, s[start:i+1])
+				start = -1
+			}
+			depth--
+			if depth == 0 {
+				goto done
+			}
+		}
+	}
+done:
+	for i, it := range items {
+		if i >= len(terms) {
+			break
+		}
+		// value is the last s-expression/atom of the pair
+		body := strings.TrimSpace(it[1 : len(it)-1])
+		val := lastSexp(body)
+		res[terms[i]] = val
+	}
+	return res
+}
+
+func lastSexp(s string) string {
+	s = strings.TrimSpace(s)
+	if strings.HasSuffix(s, ")") {
+		depth := 0
+		for i := len(s) - 1; i >= 0; i-- {
+			if s[i] == ')' {
+				depth++
+			} else if s[i] == '(' {
+				depth--
+				if depth == 0 {
+					return s[i:]
+				}
+			}
+		}
+	}
+	i := strings.LastIndexAny(s, " \n\t")
+	return s[i+1:]
+}
+
+var negRe = regexp.MustCompile(`^\(-\s*(\d+)\)$`)
+
+func smtValToGo(v string) (string, bool) {
+	v = strings.TrimSpace(v)
+	if v == "true" || v == "false" {
+		return v, true
+	}
+	if m := negRe.FindStringSubmatch(v); m != nil {
+		return "-" + m[1], true
+	}
+	if _, err := strconv.ParseUint(v, 10, 64); err == nil {
+		return v, true
+	}
+	if strings.HasPrefix(v, "-") {
+		if _, err := strconv.ParseInt(v, 10, 64); err == nil {
+			return v, true
+		}
+	}
+	return "", false
+}
+
+type goValBuilder struct {
+	e     *Enc
+	o     *Oblig
+	h     *Heap
+	pins  []string
+	inpkg *types.Package
+	err   error
+	note  []string
+}
+
+func (b *goValBuilder) val(term string) string {
+	vals, err := getValues(b.e, b.o, []string{term}, b.pins)
+	if err != nil {
+		b.err = err
+		return "0"
+	}
+	v := vals[term]
+	b.pins = append(b.pins, fmt.Sprintf("(assert (= %s %s))", term, v))
+	g, ok := smtValToGo(v)
+	if !ok {
+		b.err = fmt.Errorf("unsupported model value %q for %s", v, term)
+		return "0"
+	}
+	return g
+}
+
+func (b *goValBuilder) typeStr(t types.Type) string {
+	return types.TypeString(t, func(p *types.Package) string {
+		if p == b.inpkg {
+			return ""
+		}
+		return p.Name()
+	})
+}
+
+// build renders a Go expression of type t whose value is that of term in the model.
+func (b *goValBuilder) build(t types.Type, term string, depth int) string {
+	if b.err != nil || depth > 3 {
+		if depth > 3 {
+			b.err = fmt.Errorf("value too deep")
+		}
+		return "nil"
+	}
+	switch u := t.Underlying().(type) {
+	case *types.Basic:
+		switch {
+		case u.Info()&types.IsBoolean != 0, u.Info()&types.IsInteger != 0:
+			v := b.val(term)
+			if _, named := t.(*types.Named); named {
+				return fmt.Sprintf("%s(%s)", b.typeStr(t), v)
+			}
+			return fmt.Sprintf("%s(%s)", u.Name(), v)
+		case u.Info()&types.IsString != 0:
+			return `""`
+		}
+	case *types.Slice:
+		ln := b.val(fmt.Sprintf("(slen %s)", term))
+		n, _ := strconv.Atoi(ln)
+		if n > 4096 {
+			b.err = fmt.Errorf("model slice too long (%d)", n)
+			return "nil"
+		}
+		ref := b.val(fmt.Sprintf("(sref %s)", term))
+		if ref == "0" && n == 0 {
+			return "nil"
+		}
+		key := b.e.elemKey(u.Elem())
+		row := fmt.Sprintf("(select %s (sref %s))", b.e.hget(b.h, key), term)
+		var elems []string
+		for i := 0; i < n; i++ {
+			elems = append(elems, b.build(u.Elem(), fmt.Sprintf("(select %s (+ (soff %s) %d))", row, term, i), depth+1))
+		}
+		return fmt.Sprintf("%s{%s}", b.typeStr(t), strings.Join(elems, ", "))
+	case *types.Struct:
+		si := b.e.d.structInfoOf(t)
+		var fs []string
+		for i := 0; i < u.NumFields(); i++ {
+			fs = append(fs, fmt.Sprintf("%s: %s", u.Field(i).Name(), b.build(u.Field(i).Type(), fmt.Sprintf("(%s %s)", si.fields[i], term), depth+1)))
+		}
+		return fmt.Sprintf("%s{%s}", b.typeStr(t), strings.Join(fs, ", "))
+	case *types.Pointer:
+		st, ok := u.Elem().Underlying().(*types.Struct)
+		if !ok {
+			break
+		}
+		ref := b.val(term)
+		if ref == "0" {
+			return "nil"
+		}
+		var fs []string
+		for i := 0; i < st.NumFields(); i++ {
+			ft := st.Field(i).Type()
+			switch ft.Underlying().(type) {
+			case *types.Basic, *types.Slice:
+				key := b.e.fieldKey(u.Elem(), st, i)
+				fs = append(fs, fmt.Sprintf("%s: %s", st.Field(i).Name(), b.build(ft, fmt.Sprintf("(select %s %s)", b.e.hget(b.h, key), term), depth+1)))
+			default:
+				b.note = append(b.note, "field "+st.Field(i).Name()+" left zero")
+			}
+		}
+		return fmt.Sprintf("&%s{%s}", b.typeStr(u.Elem()), strings.Join(fs, ", "))
+	}
+	b.err = fmt.Errorf("unsupported argument type %s", t)
+	return "nil"
+}
+
 func replayModel(w *World, fr *FuncResult, o *Oblig, r SolveResult, verif, prop, repo string) *ReplayResult {
-	return nil
+	res := &ReplayResult{}
+	if o.Kind != "post" && o.Kind != "nopanic" {
+		res.Note = "the model is a state of a loop iteration or call site, not an input of the function; not replayable as a call"
+		return res
+	}
+	e := fr.enc
+	fn := e.root
+	if fn == nil || fn.Pkg == nil || fn.Parent() != nil {
+		res.Note = "not a top-level function"
+		return res
+	}
+	if strings.Contains(o.Base, "@") && o.Kind == "nopanic" {
+		// panic inside an inlined callee: still a panic of the root call
+	}
+	root := e.rootEntry
+	b := &goValBuilder{e: e, o: o, h: root, inpkg: fn.Pkg.Pkg}
+	inputs := map[string]string{}
+	var argExprs []string
+	sig := fn.Signature
+	recvExpr := ""
+	for i, p := range fn.Params {
+		if i >= len(e.paramOps) || e.paramOps[i].v.T == "" {
+			res.Note = "parameter " + p.Name() + " is not a value the replay can build"
+			return res
+		}
+		ex := b.build(p.Type(), e.paramOps[i].v.T, 0)
+		if b.err != nil {
+			res.Note = "cannot build argument " + p.Name() + ": " + b.err.Error()
+			return res
+		}
+		inputs[p.Name()] = ex
+		if sig.Recv() != nil && i == 0 {
+			recvExpr = ex
+		} else {
+			argExprs = append(argExprs, ex)
+		}
+	}
+	res.Inputs = inputs
+	// variadic last parameter
+	call := ""
+	args := strings.Join(argExprs, ", ")
+	if sig.Variadic() && len(argExprs) > 0 {
+		args += "..."
+	}
+	if sig.Recv() != nil {
+		call = fmt.Sprintf("(%s).%s(%s)", recvExpr, fn.Name(), args)
+	} else {
+		call = fmt.Sprintf("%s(%s)", fn.Name(), args)
+	}
+	// predicted results
+	expected := map[string]string{}
+	var resNames, checks []string
+	if o.Kind == "post" {
+		for i, ov := range o.Outputs {
+			g := b.build(ov.GoT, ov.Term, 0)
+			if b.err != nil {
+				res.Note = "cannot read predicted result: " + b.err.Error()
+				return res
+			}
+			name := fmt.Sprintf("r%d", i)
+			resNames = append(resNames, name)
+			expected[name] = g
+			checks = append(checks, fmt.Sprintf("\tif !reflect.DeepEqual(%s, %s) {\n\t\tt.Fatalf(\"GOCV-DIVERGE result %d: real=%%#v model=%%#v\", %s, %s)\n\t}", name, g, i, name, g))
+		}
+		if len(o.Outputs) == 0 {
+			res.Note = "postcondition over heap state only; no scalar result to compare"
+			return res
+		}
+	}
+	res.Expected = expected
+	var src bytes.Buffer
+	fmt.Fprintf(&src, "package %s\n\nimport (\n\t\"reflect\"\n\t\"testing\"\n)\n\nvar _ = reflect.DeepEqual\n\n", fn.Pkg.Pkg.Name())
+	fmt.Fprintf(&src, "// replay of obligation %s\n// %s\nfunc TestGocvReplay(t *testing.T) {\n", o.ID, o.Text)
+	if o.Kind == "nopanic" {
+		fmt.Fprintf(&src, "\tdefer func() {\n\t\tif r := recover(); r != nil {\n\t\t\tt.Logf(\"GOCV-PANIC %%v\", r)\n\t\t\treturn\n\t\t}\n\t\tt.Fatalf(\"GOCV-NOPANIC\")\n\t}()\n")
+		fmt.Fprintf(&src, "\t%s\n}\n", discardCall(call, sig.Results().Len()))
+	} else {
+		fmt.Fprintf(&src, "\t%s := %s\n", strings.Join(resNames, ", "), call)
+		for _, c := range checks {
+			fmt.Fprintln(&src, c)
+		}
+		fmt.Fprintf(&src, "\tt.Logf(\"GOCV-SAME\")\n}\n")
+	}
+	dir := filepath.Join(verif, "out", "replay", prop)
+	os.MkdirAll(dir, 0o755)
+	testFile := filepath.Join(dir, mangle(o.ID)+"_test.go")
+	os.WriteFile(testFile, src.Bytes(), 0o644)
+	res.TestFile = testFile
+	pkgDir := filepath.Dir(w.fset.Position(fn.Pos()).Filename)
+	ov := map[string]map[string]string{"Replace": {filepath.Join(pkgDir, "zz_gocv_replay_test.go"): testFile}}
+	ovData, _ := json.Marshal(ov)
+	ovFile := filepath.Join(dir, mangle(o.ID)+".overlay.json")
+	os.WriteFile(ovFile, ovData, 0o644)
+	rel, _ := filepath.Rel(repo, pkgDir)
+	ctx, cancel := context.WithTimeout(context.Background(), 180*time.Second)
+	defer cancel()
+	cmd := exec.CommandContext(ctx, "go", "test", "-overlay", ovFile, "-vet=off", "-count=1", "-timeout", "60s", "-run", "^TestGocvReplay$", "-v", "./"+rel)
+	cmd.Dir = repo
+	cmd.Env = append(os.Environ(), "GOFLAGS=-mod=mod", "GOPROXY=off", "GOSUMDB=off", "GOTOOLCHAIN=local")
+	out, _ := cmd.CombinedOutput()
+	s := string(out)
+	res.Output = truncate(s, 3000)
+	switch {
+	case o.Kind == "nopanic" && strings.Contains(s, "GOCV-PANIC"):
+		res.Confirmed = true
+		res.Note = "the real function panics on the model's input"
+	case o.Kind == "nopanic" && strings.Contains(s, "GOCV-NOPANIC"):
+		res.Note = "the real function did not panic on the model's input (model not reproduced)"
+	case o.Kind == "post" && strings.Contains(s, "GOCV-SAME"):
+		res.Confirmed = true
+		res.Note = "the real function returns exactly the results of the model, on which the clause is false"
+	case o.Kind == "post" && strings.Contains(s, "GOCV-DIVERGE"):
+		res.Note = "the real function returned different results than the model predicts (model not reproduced)"
+	default:
+		res.Note = "replay test did not run to completion"
+	}
+	if len(b.note) > 0 {
+		res.Note += " (" + strings.Join(b.note, "; ") + ")"
+	}
+	return res
+}
+
+func discardCall(call string, nres int) string {
+	if nres == 0 {
+		return call
+	}
+	us := make([]string, nres)
+	for i := range us {
+		us[i] = "_"
+	}
+	return strings.Join(us, ", ") + " = " + call
 }
